@@ -131,14 +131,15 @@ def handle (j : Json) : Except String Verdict := do
     let tags := (ops.map Req.name).eraseDups
     if implLen != len || rows.size != len then
       return { agree := false, spec := [("C13", "fail")], sig := "C13/len", why := s!"len: model {len}, impl {implLen}, rows {rows.size}" }
+    let c16 := if impl.any (fun o => (o.getObjVal? "panic").isOk) then "fail" else "pass"
     let dModel := firstDiff ops modelOuts impl
     let dSpec := firstDiff ops specOuts impl
     let specV := match dSpec with | none => "pass" | some _ => "fail"
     match dModel with
-    | none => return { agree := impl.length == ops.length, spec := [("C13", specV), ("C16", "pass")], tags := tags,
+    | none => return { agree := impl.length == ops.length, spec := [("C13", specV), ("C16", c16)], tags := tags,
                        sig := if impl.length == ops.length then "" else "C13/op-count" }
     | some (i, op) =>
-      return { agree := false, spec := [("C13", specV), ("C16", "pass")], tags := tags,
+      return { agree := false, spec := [("C13", specV), ("C16", c16)], tags := tags,
                sig := s!"C13/{op.name}",
                why := s!"op #{i} {op.name}: model {modelOuts.getD i Json.null}, impl {impl.getD i Json.null}" }
 
